@@ -12,9 +12,15 @@
    Every statement is for ALL expiries, ALL ':'-free request ids and ALL
    instance ids (any list of byte codes: empty, "::" inside, any length), and
    for any decimal rendering [dec] / [undec] with [dec_ok] (fmt %d /
-   strconv.ParseInt: trusted).  Variants: [head4] = the code with fix F-C02c
-   (SplitN); [unfixed4] = /repo before it (Split, exactly three parts: refuted);
-   [seeded12] / [seeded12u] = seeded change C02-12 (refuted). *)
+   strconv.ParseInt: trusted).  Variants: [head4] = the code as it is in /repo
+   (fix F-C02c, commit 42201a6: SplitN); [unfixed4] = /repo before that commit
+   (Split, exactly three parts: refuted); [seeded12] / [seeded12u] = seeded
+   change C02-12 (refuted).
+
+   No suite evaluates [parse] / [gc_item] on strings (the instance id is not
+   part of a Coq case); the formal tie to the frame the suites do evaluate is
+   C02_gc_item_is_GItem below: [Model.exec]'s frame [GItem q e r] does exactly
+   what [gc_item] says about the string the code wrote for (e, r). *)
 From Coq Require Import List ZArith Bool Lia.
 From Verif Require Import C02.Model C02.Model4 C02.Proofs8.
 Import ListNotations.
@@ -65,6 +71,36 @@ Proof.
 Qed.
 Print Assumptions C02_expired_member_collected.
 
+(* (J.2') the tie to Model.v (audit 2): the frame [GItem q e r] of [Model.exec]
+   — the frame the GC threads of both suites step with — collects (SRem + the
+   pending delete) exactly when [gc_item] collects the string the code wrote
+   for the member (e, r), under whatever request-id rendering [rid] (':'-free)
+   and whatever instance id; otherwise it only pops the frame *)
+Theorem C02_gc_item_is_GItem :
+  forall dec undec, dec_ok dec undec -> forall c s t q e r rest rid inst, cfree rid ->
+    exec c s t (GItem q e r) rest =
+      if gc_item undec head4 (Model.now s) (render dec e rid inst)
+      then set_stk (set_members s q (remove_first (e, r) (members s q))) t (GDel q r :: rest)
+      else set_stk s t rest.
+Proof.
+  intros dec undec D c s t q e r rest rid inst Hr.
+  rewrite (C02_expiry_collection_head dec undec D (Model.now s) e rid inst Hr). reflexivity.
+Qed.
+Print Assumptions C02_gc_item_is_GItem.
+
+Corollary C02_gc_item_members :
+  forall dec undec, dec_ok dec undec -> forall c s t q e r rest rid inst, cfree rid ->
+    members (exec c s t (GItem q e r) rest) q =
+      if gc_item undec head4 (Model.now s) (render dec e rid inst)
+      then remove_first (e, r) (members s q) else members s q.
+Proof.
+  intros dec undec D c s t q e r rest rid inst Hr.
+  rewrite (C02_gc_item_is_GItem dec undec D c s t q e r rest rid inst Hr).
+  destruct (gc_item undec head4 (Model.now s) (render dec e rid inst)); [|reflexivity].
+  cbn [members set_stk set_members]. unfold upd. rewrite Z.eqb_refl. reflexivity.
+Qed.
+Print Assumptions C02_gc_item_members.
+
 (* seeded C02-12 ("a member is only well formed when every component is
    present"): with the EMPTY instance id no member is ever collected, however
    long ago it expired — under either way of splitting *)
@@ -85,7 +121,7 @@ Corollary C02_expiry_collection_seeded12_refuted :
 Proof. split; apply C02_expiry_collection_reject_empty_refuted; reflexivity. Qed.
 Print Assumptions C02_expiry_collection_seeded12_refuted.
 
-(* /repo before fix F-C02c (strings.Split + "exactly three parts"): an instance
+(* /repo before fix F-C02c (42201a6; strings.Split + "exactly three parts"): an instance
    id with the member separator inside ("d::g") makes every member of this
    gateway unreadable; nothing is ever collected *)
 Theorem C02_expiry_collection_split_all_refuted :
@@ -114,7 +150,8 @@ Print Assumptions C02_expiry_collection_unfixed_outside_separator.
    id, (expiry, request) |-> "<expiry>::<rid request>::<instance id>" is
    injective as soon as the request ids are ':'-free and distinct — the
    hypothesis [enc_inj] of section Encoding there is met by the real encoding,
-   whatever the gateway is called *)
+   whatever the gateway is called (instantiated, not only claimed:
+   GenEquiv.C02_gen_SRem_real_encoding) *)
 Theorem C02_member_encoding_injective :
   forall dec undec, dec_ok dec undec ->
   forall (ridof : Z -> str) (inst : str),
